@@ -93,6 +93,11 @@ def judge(name, kw, variants):
         return [("example-raised:%s:%s" % (name, type(ex).__name__), "%s(%s) raised %s: %s" % (e["func"], kw, type(ex).__name__, str(ex)[:150]))], "raised"
     if wc is None:
         return [("no-value:%s" % name, "%s(%s) returned no value inside its documented range" % (e["func"], kw))], "none"
+    doc = T.DOC[name](kw) if name in getattr(T, "DOC", {}) else None
+    if doc is not None and th is not None and abs(th - doc) > 1e-9 * max(1.0, abs(doc)):
+        probs.append(("reference-value-is-not-the-documented-formula:%s" % name,
+                      "%s(%s) returns the reference value %.10g, the closed form of its documentation gives %.10g" % (e["func"], kw, th, doc)))
+        th = doc
     if th is not None:
         tol = max(e["abs_tol"] if e["abs_tol"] else 1e-3 * abs(th), e.get("floor", 2e-6))
         kind = e["kind"]
@@ -137,6 +142,7 @@ def shards(tier):
 def run_shard(shard, tier):
     ev = nontriv = runs = 0
     outcomes, viol, samples = {}, [], []
+    earlier = []        # the calls of the SAME example made before in this process: a value must not depend on them either
     for name, kw, variants in cases(tier)[shard["lo"]:shard["hi"]]:
         probs, label = judge(name, kw, variants)
         ev += 1
@@ -144,7 +150,9 @@ def run_shard(shard, tier):
         nontriv += label == "agrees"
         outcomes[label] = outcomes.get(label, 0) + 1
         for k, m in probs:
-            viol.append(dict(key=k, msg=m, case=dict(example=name, kwargs=kw, variants=variants)))
+            viol.append(dict(key=k, msg=m, case=dict(example=name, kwargs=kw, variants=variants,
+                                                     after=[kw_ for n_, kw_ in earlier if n_ == name])))
+        earlier.append((name, kw))
         if not samples:
             samples.append(dict(example=name, kwargs=kw, variants=variants, outcome=label))
     return dict(evaluations=ev, states=ev, transitions=runs, nontrivial=int(nontriv), outcomes=outcomes, violations=viol, samples=samples,
@@ -152,6 +160,11 @@ def run_shard(shard, tier):
 
 
 def replay(case):
+    for kw_ in case.get("after", []):
+        try:
+            run_example(case["example"], kw_, "plain")      # the same calls of the example that preceded it in the process
+        except Exception:
+            pass
     probs, _ = judge(case["example"], case["kwargs"], case["variants"])
     return [dict(key=k, msg=m, case=case) for k, m in probs]
 
